@@ -67,7 +67,7 @@ inline Cfg gen_cfg(vf::Src& s, int archId, bool allowStream = true) {
 	Cfg c; c.stream = allowStream && s.coin(); c.streamKind = c.stream ? static_cast<int>(s.draw(2)) : 0; c.chunk = 1 + s.draw(40);
 	if (archId != MSGPACK) {
 		if (c.stream) { c.opt.streamOptions.encoding = static_cast<Convert::Utf::UtfType>(s.draw(5)); c.opt.streamOptions.writeBom = s.coin(); }
-		if (archId == JSON || archId == XML) { c.opt.formatOptions.enableFormat = s.coin(); if (c.opt.formatOptions.enableFormat) { c.opt.formatOptions.paddingChar = s.coin() ? ' ' : '\t'; c.opt.formatOptions.paddingCharNum = static_cast<uint16_t>(s.draw(9)); } }
+		if (archId == JSON || archId == XML) { c.opt.formatOptions.enableFormat = s.coin(); if (c.opt.formatOptions.enableFormat) { c.opt.formatOptions.paddingChar = s.coin() ? ' ' : '\t'; c.opt.formatOptions.paddingCharNum = static_cast<uint16_t>(archId == XML ? 1 + s.draw(8) : s.draw(9)); } }   // XML asserts a non-empty indent (documented precondition)
 		if (archId == CSV) { static const char seps[] = { ',', ';', '\t', ' ', '|' }; c.opt.valuesSeparator = seps[s.draw(5)]; }
 	}
 	return c;
